@@ -143,6 +143,8 @@ class Compose(object):
         obj = cls()
         try:
             obj.load(path)
-        except ValueError as exc:
+        except (AttributeError, KeyError, TypeError, ValueError) as exc:
+            # ValueError: not JSON / invalid field; the others: structurally
+            # incomplete document (missing section or key, wrong container type)
             raise RuntimeError('%s can not be deserialized: %s.' % (path, exc))
         return obj
